@@ -6,8 +6,6 @@ package main
 
 import (
 	"fmt"
-	"os"
-	"runtime/pprof"
 	"strconv"
 	"strings"
 	"time"
@@ -58,11 +56,6 @@ func corpus(k int) *wd.Input {
 const nCorpus = 6
 
 func caseChild(arg string) string {
-	if pf := os.Getenv("C02_PROF"); pf != "" {
-		fh, _ := os.Create(pf)
-		pprof.StartCPUProfile(fh)
-		defer pprof.StopCPUProfile()
-	}
 	f := strings.Fields(arg)
 	seed, _ := strconv.ParseUint(f[0], 10, 64)
 	thorough := f[1] == "thorough"
@@ -152,8 +145,8 @@ func main() {
 	hx.Main(hx.Family{
 		Name:     "c02",
 		Rule:     "OSM-shaped inputs (3-10 nodes on a circle, 1-5 ways: open / revisiting / closed cw+ccw / self-crossing / single-node / with absent nodes, 0-3 relations: multipolygon and plain with node, way, relation and absent members; thorough also 8-37 nodes) built basic and compact with 1-4 cores; every id mentioned is probed. non-trivial = at least two feature types and one non-empty reference answer",
-		Quick:    1500,
-		Thorough: 20000,
+		Quick:    400,
+		Thorough: 3000,
 		Corpus:   run,
 		Case:     run,
 	})
